@@ -598,7 +598,7 @@ impl CCtx {
 fn fc_atom(i: u64) -> E {
     if i == 0 { var(DSP_IN) } else { num(1.0) }
 }
-const FC_RADIX: u64 = 24;
+const FC_RADIX: u64 = 26;
 pub fn fc_count(k: u32) -> u64 {
     seq_count(FC_RADIX, k)
 }
@@ -721,6 +721,21 @@ fn fc_stmt(c: &mut CCtx, o: u64) -> Option<()> {
             c.stmts.push(let_(&r, call("gadd", vec![var(DSP_IN)], s)));
             c.vars.push((r, Ty::F, false));
         }
+        24 => {
+            // generic pass-through lambda (no arithmetic on its parameter: stays polymorphic)
+            let f = c.fresh("f");
+            c.ops.push(format!("let {f} = |y| y"));
+            c.stmts.push(let_(&f, E::Lambda(vec!["y".into()], Box::new(var("y")))));
+            c.vars.push((f, Ty::C1, false));
+        }
+        25 => {
+            // generic top-level function bound to a variable and called through it
+            let f = c.fresh("f");
+            c.need("idf");
+            c.ops.push(format!("let {f} = idf"));
+            c.stmts.push(let_(&f, var("idf")));
+            c.vars.push((f, Ty::C1, false));
+        }
         23 => {
             // named stateful function passed as a value
             let r = c.fresh("r");
@@ -753,7 +768,7 @@ pub fn fc_decode(idx: u64, k: u32) -> Option<Gen> {
     };
     let mut hs = Sites(0);
     let mut items = vec![];
-    for h in ["cnt", "apply", "mkadd", "mkcounter", "gc", "gadd"] {
+    for h in ["cnt", "apply", "mkadd", "mkcounter", "gc", "gadd", "idf"] {
         if !c.need.contains(&h) {
             continue;
         }
@@ -762,6 +777,7 @@ pub fn fc_decode(idx: u64, k: u32) -> Option<Gen> {
             "apply" => items.push(fdef("apply", &["f", "a"], call("f", vec![var("a")], hs.next()), Shape::F)),
             "mkadd" => items.push(fdef("mkadd", &["n"], E::Lambda(vec!["y".into()], Box::new(bin("+", var("y"), var("n")))), Shape::F)),
             "mkcounter" => items.push(mkcounter()),
+            "idf" => items.push(fdef("idf", &["a"], var("a"), Shape::F)),
             "gc" => {
                 if !c.need.contains(&"mkcounter") {
                     items.push(mkcounter());
@@ -1459,6 +1475,20 @@ pub fn features(p: &Prog) -> Vec<String> {
                         }
                     }
                 });
+                if !asg_lams.is_empty() {
+                    add("lambda_assigns_captured_variable");
+                }
+                let mut any_assign = false;
+                walk(&f.body, &mut |x| {
+                    if let E::Block(ss, _) = x {
+                        if ss.iter().any(|q| matches!(q, S::Assign(..))) {
+                            any_assign = true;
+                        }
+                    }
+                });
+                if any_assign {
+                    add("has_assignment");
+                }
                 walk(&f.body, &mut |x| match x {
                     E::Call(n, args, _) => {
                         if st_lams.contains(n) {
